@@ -261,4 +261,20 @@ CHECKS = {
             dict(test="TestC15LimitBin", shrink_s=4, unit="limit-bin", kind="rapid", checks=(16, 320), shards=(8, 16), bin=True),
         ],
     ),
+    "C16": dict(
+        level="exploration",
+        technique="property-based testing (rapid) of timing scripts with sound bounds from client-side timestamps; in-process (ledger fs) and real binary (--read-timeout, /proc/<pid>/fd)",
+        rule="read timeout T from {150,200,300,500,800,1500} ms; scripts: silent after connect, silent after k in 1..12 requests, stalled after 1..40 bytes of a request (inside the 16-byte command "
+             "or inside the path), and active connections issuing a request every 0.1T..0.8T for 5..30 T, half of all scripts holding an open file and an open directory. bounds: a cut earlier "
+             "than T-15 ms after the client BEGAN its last complete request is a violation; an idle or stalled connection must be cut within T+max(600 ms, T) (a miss is re-run once and counts only "
+             "if it repeats); an active connection must have every request answered unless the measured spacing reached 0.8T (then the case is counted inconclusive, not judged); after the cut the "
+             "handle ledger (in-process) or the process's descriptor count (binary) must be back at its baseline. non-trivial = an active connection that lived >= 5T with >= 10 requests, or a "
+             "stall inside a request; distinct by (T, script parameters, target)",
+        assumptions=["wall-clock, not a virtual clock: the bounds are sound (client-side timestamps, overload counted as inconclusive), so the check cannot false-alarm but under-tests on a busy machine",
+                     "liveness ('is eventually cut') is a bounded-time check with generous slack"],
+        units=[
+            dict(test="TestC16Idle", unit="idle", kind="rapid", checks=(48, 1200), shards=(16, 16), shrink_s=5),
+            dict(test="TestC16IdleBin", unit="idle-bin", kind="rapid", checks=(16, 320), shards=(16, 16), shrink_s=5, bin=True),
+        ],
+    ),
 }
